@@ -322,6 +322,7 @@ pub fn run(run: &mut Run) {
         plan.start = Some(bd(2, 1));
         plan.mid = Some(bd(2, 1));
         plan.r960 = Some(bd(0, 0));
+        plan.walk = Some((120, 40, 2, 7, bd(0, 1)));
         plan.raws.push((Box::new(ThreeMen { bk: None }), bd(0, 0)));
         plan.raws.push((Box::new(Castle { extra: 1, ek_rank2: false }), bd(0, 0)));
         plan.raws.push((Box::new(EpUniverse::reduced()), bd(0, 0)));
